@@ -512,7 +512,7 @@ var factPreds = map[string]bool{
 	"is": true, "notis": true, "nil": true, "nonnil": true, "def": true, "has": true, "lacks": true,
 	"errIs": true, "notErrIs": true, "errAs": true, "notErrAs": true, "inloop": true, "same": true, "zero": true,
 	"literal": true, "fresh": true, "any": true,
-	"member": true, "notmember": true, "all": true, "some": true,
+	"member": true, "notmember": true, "all": true, "some": true, "defx": true,
 }
 
 // Clause: disjunction of alternatives; alternative: conjunction of fact patterns.
@@ -780,6 +780,10 @@ func unify(p, t *Term, b Bind) bool {
 	}
 	if p.K == "const" && t.K == "type" {
 		return nameMatches(p.S, t.S)
+	}
+	// a pointer type written *pkg.T in a pattern
+	if p.K == "op" && p.S == "*" && len(p.A) == 1 && p.A[0].K == "const" && t.K == "type" && strings.HasPrefix(t.S, "*") {
+		return nameMatches(p.A[0].S, t.S[1:])
 	}
 	if p.K != t.K {
 		return false
